@@ -89,8 +89,13 @@ CLAIMS = {
              "symbol-map operation log; the scope-tracking generator (use -> declaration map known by construction, audited "
              "against llvm-tblgen): go-to-definition and hover at every use and declaration, find-references at every "
              "declaration, deliberate out-of-scope uses must not resolve and must be reported.",
-        note="Partial: the balanced lemmas assume RecScoped for the recursive calls (not discharged globally for mkRec); the link "
-             "from 'the indexer visits this use with these scopes' to the generator's expectation is the oracle, not a theorem. "
+        note="Globally (RecScoped discharged for mkRec at every fuel, the body-node conditions discharged for every parser output by "
+             "the verified abstract interpreter parse_bodied): index_ends_at_root_scope (indexing any workspace ends with exactly "
+             "the root scope), statement_restores_scopes (every statement leaves the scope stack as it found it - exactly so for "
+             "the block constructs, extended only in the innermost scope by defvar/defset/include), name_after_block_not_resolved "
+             "(no variable introduced inside a block statement is ever resolved by a later statement; under ScopeIdsOK of the "
+             "start state). Still the oracle, not a theorem: the link from 'the indexer visits this use with these scopes' to the "
+             "generator's expectation. "
              "Known findings: body `let` overrides create a second field symbol (2 signatures).",
         tech="Lean 4 proof (algebraic laws of the scope stack + Hoare triples per block construct) + differential correspondence + generator oracle",
         ref="DESIGN.md §7 C05, §12.7"),
@@ -132,8 +137,10 @@ CLAIMS = {
              "range of the declaring identifier, and children: template arguments then fields; defs of a defset under the "
              "defset). Checks: model vs implementation; generator oracle with expected outline and folding ranges known by "
              "construction (nesting in foreach/if/let/defset/multiclass, optional parts present/absent, several files).",
-        note="Partial: 'in source order' is proved as 'insertion order of the indexer', its equality with source order is decided by "
-             "the oracle; an empty node (e.g. the empty ParentClassList of `class A;`) cuts rowan's prev_token chain, the "
+        note="document_symbols_source_order: the top-level outline entries are pairwise ordered by range (end <= next start) for "
+             "every workspace. Children (template arguments, fields) are in first-insertion order of an IndexMap, which is not "
+             "source order when a name is re-declared (children_not_source_order_witness; C18's text only asks it of symbols, the "
+             "oracle checks children of non-redeclaring programs). An empty node (e.g. the empty ParentClassList of `class A;`) cuts rowan's prev_token chain, the "
              "folding spec is stated on the model's own chain.",
         tech="Lean 4 proof (flat token theory of the annotated tree + handler specs) + differential correspondence + generator oracle",
         ref="DESIGN.md §7 C18, §12.7"),
@@ -147,7 +154,10 @@ CLAIMS = {
              "maximal alternation of [whitespace with one newline][// comment] before the declaration, leading slashes and "
              "blanks removed, in source order). Checks: model vs implementation; generator oracle for hover signature, doc text "
              "(10 comment layouts per declaration kind) and hints (full range, ranges around every hint position, random ranges).",
-        note="Trailing comment of the previous code line directly above a declaration: either answer accepted (ambiguous in the "
+        note="End to end: inlay_hint_end_to_end (every hint of an answer is the parameter name / field type of the symbol registered at "
+             "the reference it sits on, inside the requested range), hover_signature_of_declared_type(+_templateArg, _defvar): the "
+             "type shown for a field / template argument / defvar is the one its declaration was indexed with (hypothesis: later "
+             "indexing only appends to the arenas, ArenaKeep). Trailing comment of the previous code line directly above a declaration: either answer accepted (ambiguous in the "
              "property text).",
         tech="Lean 4 proof (handler specs, refinement of the fast position map to its specification) + differential correspondence + generator oracle",
         ref="DESIGN.md §7 C19, §12.7"),
